@@ -7,6 +7,9 @@
 //	stack <req|resp> <global> <perReq> <LT>         -> loads=<n> out=<ok|budget|…>     (complete stores)
 //	stackskip req <global> <perReq> <k> <LT>        -> same; the requestor already holds the blocks of the first k
 //	                                                   loads and sends do-not-send-first-blocks=k
+//	stackseq <req|resp> <global> <p1,p2,…> <LT>     -> loads=<n1,n2,…> out=<o1,o2,…>   SUCCESSIVE requests between ONE pair of
+//	                                                   instances, request i with per-request limit p_i (0 = none): the budget
+//	                                                   of a request must not depend on the requests served before it
 package budgetstack
 
 import (
@@ -215,6 +218,182 @@ func exchange(w *budget.World, side string, global, per uint64, skip int, ref []
 	return res
 }
 
+// exchangeSeq: successive requests between one requestor and one responder instance; request i carries the
+// per-request limit pers[i] (0 = none) on the enforcing side.  Every request gets a fresh requestor-side
+// store (persistence option chosen in the outgoing-request hook), so each one needs all blocks from the responder.
+func exchangeSeq(w *budget.World, side string, global uint64, pers []uint64) (out []result) {
+	ctx, cancel := context.WithTimeout(context.Background(), time.Duration(20*len(pers))*time.Second)
+	defer cancel()
+	fail := func(s string) []result {
+		for len(out) < len(pers) {
+			out = append(out, result{out: s})
+		}
+		return out
+	}
+	mn := mocknet.New()
+	defer mn.Close()
+	h1, err := mn.GenPeer()
+	if err != nil {
+		return fail("error:net")
+	}
+	h2, err := mn.GenPeer()
+	if err != nil {
+		return fail("error:net")
+	}
+	if err := mn.LinkAll(); err != nil {
+		return fail("error:net")
+	}
+	ls1 := cidlink.DefaultLinkSystem()
+	ls1.TrustedStorage = true
+	st1 := &memstore.Store{}
+	ls1.SetReadStorage(st1)
+	ls1.SetWriteStorage(st1)
+	var mu sync.Mutex
+	var respLoads []int
+	ls2 := w.D.LinkSystem(nil, func(_ linking.LinkContext, c cid.Cid) {
+		mu.Lock()
+		respLoads = append(respLoads, w.D.Index(c))
+		mu.Unlock()
+	})
+	var o1, o2 []gsimpl.Option
+	if side == "req" && global > 0 {
+		o1 = append(o1, gsimpl.MaxLinksPerOutgoingRequests(global))
+	}
+	if side == "resp" && global > 0 {
+		o2 = append(o2, gsimpl.MaxLinksPerIncomingRequests(global))
+	}
+	requestor := gsimpl.New(ctx, gsnet.NewFromLibp2pHost(h1), ls1, o1...)
+	responder := gsimpl.New(ctx, gsnet.NewFromLibp2pHost(h2), ls2, o2...)
+	var cur struct {
+		sync.Mutex
+		per  uint64
+		name string
+	}
+	requestor.RegisterOutgoingRequestHook(func(_ peer.ID, _ graphsync.RequestData, ha graphsync.OutgoingRequestHookActions) {
+		cur.Lock()
+		defer cur.Unlock()
+		ha.UsePersistenceOption(cur.name)
+		if side == "req" && cur.per > 0 {
+			ha.MaxLinks(cur.per)
+		}
+	})
+	responder.RegisterIncomingRequestHook(func(_ peer.ID, _ graphsync.RequestData, ha graphsync.IncomingRequestHookActions) {
+		cur.Lock()
+		defer cur.Unlock()
+		ha.ValidateRequest()
+		if side == "resp" && cur.per > 0 {
+			ha.MaxLinks(cur.per)
+		}
+	})
+	statusCh := make(chan graphsync.ResponseStatusCode, 4)
+	responder.RegisterCompletedResponseListener(func(_ peer.ID, _ graphsync.RequestData, st graphsync.ResponseStatusCode) {
+		select {
+		case statusCh <- st:
+		default:
+		}
+	})
+	cancelledCh := make(chan struct{}, 4)
+	responder.RegisterRequestorCancelledListener(func(peer.ID, graphsync.RequestData) {
+		select {
+		case cancelledCh <- struct{}{}:
+		default:
+		}
+	})
+	for i, per := range pers {
+		name := fmt.Sprintf("store%d", i)
+		lsi := cidlink.DefaultLinkSystem()
+		lsi.TrustedStorage = true
+		sti := &memstore.Store{}
+		lsi.SetReadStorage(sti)
+		lsi.SetWriteStorage(sti)
+		if err := requestor.RegisterPersistenceOption(name, lsi); err != nil {
+			return fail("error:persistence")
+		}
+		cur.Lock()
+		cur.per, cur.name = per, name
+		cur.Unlock()
+		mu.Lock()
+		respLoads = nil
+		mu.Unlock()
+		var reqBlocks []int
+		seenPath := map[string]bool{}
+		progress, errs := requestor.Request(ctx, h2.ID(), cidlink.Link{Cid: w.D.Root}, w.Sel)
+		var reqErrs []error
+		for progress != nil || errs != nil {
+			select {
+			case p, ok := <-progress:
+				if !ok {
+					progress = nil
+					continue
+				}
+				key := "@" + p.LastBlock.Path.String()
+				if p.LastBlock.Link == nil {
+					key = "root"
+				}
+				if seenPath[key] {
+					continue
+				}
+				seenPath[key] = true
+				if p.LastBlock.Link == nil {
+					reqBlocks = append(reqBlocks, w.D.Index(w.D.Root))
+				} else {
+					reqBlocks = append(reqBlocks, w.D.Index(p.LastBlock.Link.(cidlink.Link).Cid))
+				}
+			case e, ok := <-errs:
+				if !ok {
+					errs = nil
+				} else {
+					reqErrs = append(reqErrs, e)
+				}
+			}
+		}
+		if ctx.Err() != nil {
+			return fail("error:timeout")
+		}
+		var res result
+		// the responder's own verdict on the response is awaited in both modes: the next request must not
+		// start while this one is still being served
+		select {
+		case st := <-statusCh:
+			switch {
+			case st.IsSuccess():
+				res.out = "ok"
+			case st == graphsync.RequestFailedUnknown:
+				res.out = "budget" // with a complete store nothing else fails a response
+			default:
+				res.out = "error:" + st.String()
+			}
+		case <-cancelledCh:
+			res.out = "error:cancelled"
+		case <-ctx.Done():
+			return fail("error:timeout")
+		}
+		if side == "req" {
+			// a requestor-side budget error cancels the request: the responder sees a cancel, or had
+			// already completed — either is fine, the requestor's view decides
+			res.seq = reqBlocks
+			res.loads = len(reqBlocks)
+			res.out = "ok"
+			for _, e := range reqErrs {
+				var be *traversal.ErrBudgetExceeded
+				if errors.As(e, &be) || strings.Contains(e.Error(), "traversal budget exceeded") {
+					res.out = "budget"
+				} else if res.out == "ok" {
+					res.out = "error:" + strings.ReplaceAll(e.Error(), " ", "_")
+				}
+			}
+		} else {
+			mu.Lock()
+			res.seq = append([]int{}, respLoads...)
+			res.loads = len(respLoads)
+			mu.Unlock()
+		}
+		_ = requestor.UnregisterPersistenceOption(name)
+		out = append(out, res)
+	}
+	return out
+}
+
 // effective budget from the property text: the smaller non-zero of the two, 0 = no budget
 func effective(global, per uint64) uint64 {
 	switch {
@@ -311,6 +490,53 @@ func Run(cases []reg.Case, out *reg.Out) {
 					continue
 				}
 				budget.Judge(out, where, n, ref, r.seq, r.out == "budget")
+			case "stackseq":
+				// stackseq <req|resp> <global> <p1,p2,…> <LT>
+				if w == nil || len(op) < 6 || (op[1] != "req" && op[1] != "resp") {
+					out.Line("bad-op")
+					continue
+				}
+				g, e1 := strconv.ParseUint(op[2], 10, 64)
+				var pers []uint64
+				bad := e1 != nil
+				for _, t := range strings.Split(op[3], ",") {
+					p, e := strconv.ParseUint(t, 10, 64)
+					if e != nil {
+						bad = true
+					}
+					pers = append(pers, p)
+				}
+				if bad || len(pers) == 0 || len(pers) > 6 {
+					out.Line("bad-op")
+					continue
+				}
+				if strings.Join(op[4:], " ") != fullLT {
+					out.Line("lt-mismatch expected %s", fullLT)
+					continue
+				}
+				rs := exchangeSeq(w, op[1], g, pers)
+				var ls, os_ []string
+				for _, r := range rs {
+					ls = append(ls, strconv.Itoa(r.loads))
+					os_ = append(os_, r.out)
+				}
+				out.Line("loads=%s out=%s", strings.Join(ls, ","), strings.Join(os_, ","))
+				out.Cov("stack:seq:" + op[1])
+				for i, r := range rs {
+					n := effective(g, pers[i])
+					where := fmt.Sprintf("%s stack, request %d of %d between the same two instances (global %d, per-request limits %s, selector %s)", map[string]string{"req": "requestor", "resp": "responder"}[op[1]], i+1, len(rs), g, op[3], w.SelName)
+					if strings.HasPrefix(r.out, "error:") {
+						out.Fail("stack-error", "%s: unexpected outcome %s", where, r.out)
+						continue
+					}
+					if n == 0 {
+						if r.out == "budget" {
+							out.Fail("enough", "%s: no budget configured but the request failed with a budget error", where)
+						}
+						continue
+					}
+					budget.Judge(out, where, n, ref, r.seq, r.out == "budget")
+				}
 			default:
 				out.Line("bad-op")
 			}
@@ -365,6 +591,24 @@ func Gen(seed int64, n int, tier string, w *bufio.Writer) {
 				}
 			}
 			fmt.Fprintf(w, "stack %s %d %d %s\n", side, g, p, lt)
+		}
+		if r.Intn(2) == 0 {
+			// successive requests between the same two instances, each with its own per-request limit
+			side := []string{"req", "resp"}[r.Intn(2)]
+			g := uint64(0)
+			if r.Intn(2) == 0 {
+				g = pick()
+			}
+			k := 2 + r.Intn(3)
+			var ps []string
+			for j := 0; j < k; j++ {
+				p := uint64(0)
+				if r.Intn(4) != 0 {
+					p = pick()
+				}
+				ps = append(ps, strconv.FormatUint(p, 10))
+			}
+			fmt.Fprintf(w, "stackseq %s %d %s %s\n", side, g, strings.Join(ps, ","), lt)
 		}
 		if need >= 2 && r.Intn(2) == 0 {
 			// a resumed transfer under a requestor budget
